@@ -428,6 +428,45 @@ theorem C09_methods :
     ∧ (∀ n ∈ binaryMethods ++ inplaceMethods, (methodOf n).isSome) := by
   decide
 
+/-- **The constructor keeps the mask (and the data) it is given** — for spectra of EVERY shape, whole ones and slices alike, with every
+    mask (corners open, entries beyond the fold unmasked, …), folded or not.  `ctor_selfMaskAfter` / `ctor_selfDataAfter` are the
+    translation of the `if data_folded:` block of `Spectrum.__new__` (the consistency checks there only warn; the block contains
+    no store, `ctor_foldedBlockStores = 0`); `ctorSpec` adds `if mask_corners: subarr.mask_corners()`.  Hence the result of the
+    constructor has the mask passed, plus the two corners iff `mask_corners`; and every binary operator — which builds its result
+    through this constructor with `data_folded = self.folded` and `mask_corners=False` — returns exactly the union of the operand
+    masks on a folded spectrum of any shape, also where `_total_per_entry` of THAT shape exceeds half the total.
+    An enforcement such as `subarr.mask[where_folded_out] = True` in the block changes the generated definition and breaks this proof
+    (and `ctorMask_eq`, on which `C09_binary_program` rests). -/
+theorem C09_ctor_keeps_mask :
+    (∀ {ι : Type} (mirror : ι → ι) (total : ι → ℕ) (T : ℕ) (x : ι → ℚ) (m : ι → Bool) (i : ι),
+        ctor_selfMaskAfter mirror total T x m i = m i ∧ ctor_selfDataAfter mirror total T x m i = x i)
+    ∧ ctor_foldedBlockStores = 0
+    ∧ (∀ (shape : List ℕ) (b : Bool) (x : ℕ → ℚ) (m : ℕ → Bool) (k : ℕ),
+        ctorMask shape b x m k = m k ∧ ctorData shape b x m k = x k)
+    ∧ (∀ (S : Spec) (mc : Bool) (k : ℕ), k < S.N →
+        (ctorSpec S mc).m k = (S.m k || (mc && cornerFlat S.N k)) ∧ (ctorSpec S mc).x k = S.x k)
+    ∧ (∀ (S : Spec) (mc : Bool), (ctorSpec S mc).folded = S.folded ∧ (ctorSpec S mc).popIds = S.popIds
+        ∧ (ctorSpec S mc).shape = S.shape) := by
+  have gen : ∀ {ι : Type} (mirror : ι → ι) (total : ι → ℕ) (T : ℕ) (x : ι → ℚ) (m : ι → Bool) (i : ι),
+      ctor_selfMaskAfter mirror total T x m i = m i ∧ ctor_selfDataAfter mirror total T x m i = x i := by
+    intro ι mirror total T x m i
+    constructor <;> ctor_program_unfold
+  have mdl : ∀ (shape : List ℕ) (b : Bool) (x : ℕ → ℚ) (m : ℕ → Bool) (k : ℕ),
+      ctorMask shape b x m k = m k ∧ ctorData shape b x m k = x k := by
+    intro shape b x m k
+    unfold ctorMask ctorData
+    cases b
+    · exact ⟨rfl, rfl⟩
+    · simp only [if_true]
+      exact gen _ _ _ _ _ _
+  refine ⟨gen, rfl, mdl, ?_, fun S mc => ⟨rfl, rfl, rfl⟩⟩
+  intro S mc k hk
+  constructor
+  · show (tabulate S.N fun k => ctorMask S.shape S.folded S.x S.m k || (mc && cornerFlat S.N k)).getD k false = _
+    rw [tabulate_getD _ _ _ hk, (mdl _ _ _ _ _).1]
+  · show (tabulate S.N fun k => ctorData S.shape S.folded S.x S.m k).getD k 0 = _
+    rw [tabulate_getD _ _ _ hk, (mdl _ _ _ _ _).2]
+
 /-- **The binary template, executed statement by statement** (`binaryProgram`, translated from the source, run by `runT`)
     for every method name, every spectrum and every kind of operand — Spectrum, masked array, ndarray, scalar — is the
     closed form `binopClosed`: the folding check on `other` comes first; then the forwarded ndarray method works on the
@@ -448,7 +487,7 @@ theorem C09_binary_program : BinaryProgramOK := by
         binopFolded S.folded oF, binopPopIds S.popIds oi⟩ : Spec)
       = ⟨S.shape, d, tabulate S.N f, S.folded, S.popIds.orElse fun _ => oi⟩ := by
     intro d f oF oi
-    simp only [ctorMask_eq]
+    simp only [(C09_ctor_keeps_mask.2.2.1 _ _ _ _ _).1]
     rw [tabulate_getD_or]
     refine spec_eq_of rfl rfl ?_ ?_ ?_
     · dsimp only
@@ -463,7 +502,7 @@ theorem C09_binary_program : BinaryProgramOK := by
         binopFolded S.folded oF, S.popIds⟩ : Spec)
       = ⟨S.shape, d, tabulate S.N f, S.folded, S.popIds.orElse fun _ => none⟩ := by
     intro d f oF
-    simp only [ctorMask_eq]
+    simp only [(C09_ctor_keeps_mask.2.2.1 _ _ _ _ _).1]
     rw [tabulate_getD_or]
     refine spec_eq_of rfl rfl ?_ ?_ ?_
     · dsimp only
@@ -711,37 +750,13 @@ theorem C09_arith_keeps (name : String) (S R : Spec) (o : Operand) (h : binop na
     directions, after later masking — is checked on the implementation by L3, aliasing is not part of the value-level model.) -/
 theorem C09_arith_fresh : binopCopies = true := by decide
 
-/-- **The constructor keeps the mask (and the data) it is given** — for spectra of EVERY shape, whole ones and slices alike, with every
-    mask (corners open, entries beyond the fold unmasked, …), folded or not.  `ctor_selfMaskAfter` / `ctor_selfDataAfter` are the
-    translation of the `if data_folded:` block of `Spectrum.__new__` (the consistency checks there only warn; the block contains
-    no store, `ctor_foldedBlockStores = 0`); `ctorSpec` adds `if mask_corners: subarr.mask_corners()`.  Hence the result of the
-    constructor has the mask passed, plus the two corners iff `mask_corners`; and every binary operator — which builds its result
-    through this constructor with `data_folded = self.folded` and `mask_corners=False` — returns exactly the union of the operand
-    masks on a folded spectrum of any shape, also where `_total_per_entry` of THAT shape exceeds half the total.
-    An enforcement such as `subarr.mask[where_folded_out] = True` in the block changes the generated definition and breaks this proof
-    (and `ctorMask_eq`, on which `C09_binary_program` rests). -/
-theorem C09_ctor_keeps_mask :
-    (∀ {ι : Type} (mirror : ι → ι) (total : ι → ℕ) (T : ℕ) (x : ι → ℚ) (m : ι → Bool) (i : ι),
-        ctor_selfMaskAfter mirror total T x m i = m i ∧ ctor_selfDataAfter mirror total T x m i = x i)
-    ∧ ctor_foldedBlockStores = 0
-    ∧ (∀ (S : Spec) (mc : Bool) (k : ℕ), k < S.N →
-        (ctorSpec S mc).m k = (S.m k || (mc && cornerFlat S.N k)) ∧ (ctorSpec S mc).x k = S.x k)
-    ∧ (∀ (S : Spec) (mc : Bool), (ctorSpec S mc).folded = S.folded ∧ (ctorSpec S mc).popIds = S.popIds
-        ∧ (ctorSpec S mc).shape = S.shape)
-    ∧ (∀ (name : String) (S R : Spec) (o : Operand), binop name S o = .ok R →
-        ∀ k < S.N, R.m k = (S.m k || o.maskAt k)) := by
-  refine ⟨?_, rfl, ?_, fun S mc => ⟨rfl, rfl, rfl⟩, ?_⟩
-  · intro ι mirror total T x m i
-    constructor <;> ctor_program_unfold
-  · intro S mc k hk
-    constructor
-    · show (tabulate S.N fun k => ctorMask S.shape S.folded S.x S.m k || (mc && cornerFlat S.N k)).getD k false = _
-      rw [tabulate_getD _ _ _ hk, ctorMask_eq]
-    · show (tabulate S.N fun k => ctorData S.shape S.folded S.x S.m k).getD k 0 = _
-      rw [tabulate_getD _ _ _ hk, ctorData_eq]
-  · intro name S R o h k hk
-    obtain ⟨M, _, _, _, h4, _⟩ := C09_arith_keeps name S R o h
-    exact (h4 k hk).2
+/-- … and through the binary templates (`data_folded = self.folded`, `mask_corners=False`): on a spectrum of any shape with any
+    mask the result mask is exactly the union of the operand masks (`C09_ctor_keeps_mask` inside `C09_binary_program`). -/
+theorem C09_ctor_keeps_mask_arith (name : String) (S R : Spec) (o : Operand) (h : binop name S o = .ok R) :
+    ∀ k < S.N, R.m k = (S.m k || o.maskAt k) := by
+  intro k hk
+  obtain ⟨M, _, _, _, h4, _⟩ := C09_arith_keeps name S R o h
+  exact (h4 k hk).2
 
 /-- not vacuous, and the situation of the class: a SLICE `f[:3]` of a folded 1-D spectrum of 8 entries (folded, shape `[3]`, mask
     `[True, False, False]`): for that shape entry 2 lies beyond the fold (2 > int(2/2)), it is unmasked, and it stays unmasked in
